@@ -6,6 +6,7 @@
   "the delivered wfm is applyInverseRCFilter(wfm, SR, kind, f_cut, order, DCgain=1) of these blocks";
   the harness evaluates it with the real ripasso function.  What the filter computes is C12/C13.
 -/
+import BB.Proofs.ForgeSeq
 import Mathlib.Tactic.FieldSimp
 import Mathlib.Algebra.Field.Rat
 import BB.Model.Sequence
@@ -105,5 +106,43 @@ theorem setFilter_stores (s : Sequence) (ch : Chan) (kind : String) (order : ℤ
     · exact b h
   simp only [h1, not_true_eq_false, if_false, h3, SeqCore.setSpec]
   exact Dict.get?_upsert_self (κ := String) _ _ _
+
+/-! ### forge with filters on = forge with filters off + the declared inverse filter, position by position -/
+
+/-- **an element position of `forge`, filters on vs. off** (same delay and time options): the two
+    results hold the same arrays in the same channel order — markers, flags, time axis and the
+    waveform blocks are identical — and differ only in the filter annotation: none with filters
+    off; with filters on, every channel carries exactly the call of its own declared setting
+    (`filterOf`: kind, order, f_cut or 1/tau, the sequence's sample rate), applied to the
+    complete delayed waveform of that element -/
+theorem forge_filter_position (s : Sequence) (d t : Bool) (Fon Foff : List (ℕ × ForgedPos))
+    (hon : s.forge d true t = .ok Fon) (hoff : s.forge d false t = .ok Foff)
+    (i : ℕ) (h1 : i < Fon.length) (h2 : i < Foff.length) (e : Element)
+    (he : Dict.get? s.data ((i + 1 : ℕ) : ℤ) = some (.el e)) :
+    ∃ (arr : Dict Chan Element.ChOut) (con coff : Dict Chan ChOutF) (sq : SeqSet),
+      Fon[i] = (i + 1, { sequencing := sq, isSub := false, content := [(1, con, none)] }) ∧
+      Foff[i] = (i + 1, { sequencing := sq, isSub := false, content := [(1, coff, none)] }) ∧
+      con.length = arr.length ∧ coff.length = arr.length ∧
+      ∀ k (hk : k < arr.length) (hc : k < con.length) (hf : k < coff.length),
+        con[k].1 = arr[k].1 ∧ coff[k].1 = arr[k].1 ∧ con[k].2.out = arr[k].2 ∧ coff[k].2.out = arr[k].2 ∧
+        coff[k].2.filt = none ∧ s.filterOf arr[k].1 = .ok con[k].2.filt := by
+  obtain ⟨en1, hen1, hp1⟩ := (Sequence.forge_pos s d true t Fon hon).2 i h1
+  obtain ⟨en2, hen2, hp2⟩ := (Sequence.forge_pos s d false t Foff hoff).2 i h2
+  rw [he] at hen1 hen2
+  cases hen1; cases hen2
+  obtain ⟨e1, arr1, c1, sq1, hd1, ha1, hw1, hs1, hF1⟩ := Sequence.forgePos_element s d true t (i + 1) e _ hp1
+  obtain ⟨e2, arr2, c2, sq2, hd2, ha2, hw2, hs2, hF2⟩ := Sequence.forgePos_element s d false t (i + 1) e _ hp2
+  rw [hd1] at hd2
+  cases hd2
+  rw [ha1] at ha2
+  cases ha2
+  rw [hs1] at hs2
+  cases hs2
+  obtain ⟨l1, f1⟩ := filters_frame s true arr1 c1 hw1
+  obtain ⟨l2, f2⟩ := filters_frame s false arr1 c2 hw2
+  refine ⟨arr1, c1, c2, sq1, hF1, hF2, l1, l2, fun k hk hc hf => ?_⟩
+  obtain ⟨a1, a2, _, a4⟩ := f1 k hk hc
+  obtain ⟨b1, b2, b3, _⟩ := f2 k hk hf
+  exact ⟨a1, b1, a2, b2, b3 rfl, a4 rfl⟩
 
 end BB.C11
